@@ -1042,15 +1042,66 @@ register(
     [A_NET, A_UMNN, T_OPS],
 )
 
+class StateReadDomain(TaintDomain):
+    skip_assumed_tests = True
+
+    def __init__(self):
+        self.reads = set()
+
+    def state(self, interp, objav, path, attrinfo, node):
+        pth = tuple(x for x in path if x != "<new>")
+        if not (pth and pth[0] == "cache"):
+            self.reads.add(".".join(pth))
+        return T()
+
+
+def inv_state_rule(ctx):
+    """INV-STATE: both directions of a transform read the same model state (parameters, buffers,
+    tensor attributes).  A direction that works from its own private copy of the state
+    (a memo computed at construction, a second buffer) silently diverges from the other
+    direction once the state is reloaded, converted or trained."""
+    p = ctx.p
+    res = RuleResult("INV-STATE", "forward and inverse of every transform read the same parameters / buffers / tensor attributes (evaluation mode; the Linear cache is C10's)")
+    n = 0
+    for cls in transform_classes(p):
+        f = cls.lookup_method("forward")
+        i = cls.lookup_method("inverse")
+        if f is None or i is None or _only_raises(f) or _only_raises(i):
+            continue
+        from ..entries import is_abstract, param_value
+
+        if is_abstract(cls, ["_coupling_transform_forward", "_elementwise_forward", "forward_no_cache", "_piecewise_cdf"]):
+            continue
+        sets = {}
+        for name, fi in (("forward", f), ("inverse", i)):
+            dom = StateReadDomain()
+            it = Interp(p, dom, assume={"self.training": False, "self.using_cache": False})
+            args = [param_value(dom, fi, pn, k, d) for k, (pn, d) in enumerate(fi.params())]
+            it.run_function(fi, OBJ(cls), args)
+            sets[name] = dom.reads
+        n += 1
+        if sets["forward"] == sets["inverse"]:
+            res.ok("%s: both directions read %s" % (cls.name, sorted(sets["forward"]) or "no state"), nontrivial=bool(sets["forward"]))
+        else:
+            only_f = sorted(sets["forward"] - sets["inverse"])
+            only_i = sorted(sets["inverse"] - sets["forward"])
+            res.fail(Finding("INV-STATE", i.module, "%s.inverse" % cls.name, i.node, "%s: forward reads state %s that inverse does not, inverse reads %s that forward does not: the two directions are computed from different copies of the model state and stop being inverses of each other once one copy changes (load_state_dict, dtype conversion, training)" % (cls.name, only_f, only_i), construct="state read by the two directions of " + cls.name))
+    if n < 25:
+        raise AnalysisIncomplete("INV-STATE: %d classes compared (< 25 confirmed by hand)" % n)
+    return res
+
+
 register(
     "C02",
-    [inv_sign_rule, inv_config_rule, inv_pos_rule],
+    [inv_sign_rule, inv_config_rule, inv_pos_rule, inv_state_rule],
     "INV-SIGN / INV-FLAG: for every direction pair (forward/inverse, the coupling / autoregressive / no-cache hooks, and every "
     "function with an inverse flag incl. the four spline functions) the returned log-dets are expanded symbolically and "
     "flattened to signed leaves through reductions, broadcasts, reshapes and masked stores; the inverse's leaves must be the "
     "term-wise negation of the forward's, or -- for input-dependent forms that legitimately use different variables in the two "
     "directions -- carry log-leaves with + in forward and - in inverse; delegating pairs must pass inverse=False/True. "
-    "INV-SIDE / INV-AR / INV-ORDER are decided by the C09 / C06 / C08 rules. INV-CONFIG: SqueezeTransform's inverse guard and "
+    "INV-SIDE / INV-AR / INV-ORDER are decided by the C09 / C06 / C08 rules. INV-STATE: in the evaluation-mode scenario the "
+    "sets of parameters / buffers / tensor attributes read (interprocedurally) by forward and by inverse of every concrete "
+    "transform are equal, so no direction works from a private copy of the state. INV-CONFIG: SqueezeTransform's inverse guard and "
     "divisor are the same polynomial in self.factor as forward's channel multiplier. INV-POS: sign-lattice proof that every "
     "quantity built from a positivity activation is still positive where its log is taken or it divides. Round-trip error, "
     "finiteness and root selection are value questions and are NOT decided.",
